@@ -112,7 +112,7 @@ func reach(c *explore.Ctx, visit func(scope string, idx int64, st *state)) {
 		}
 		for si, n := range sizes {
 			scope := "R0-SIZES"
-			if !c.MineIdx(scope, int64(si)) || c.Expired() {
+			if !(c.MineIdx(scope, int64(si)) || (c.Replay && c.ReplayScope == scope+"/m" && c.ReplayIndex/2 == int64(si))) || c.Expired() {
 				continue
 			}
 			batch := make([]model.Doc, n)
@@ -177,7 +177,7 @@ func reach(c *explore.Ctx, visit func(scope string, idx int64, st *state)) {
 		}
 		for wi, spec := range [][2]int{{130, 0}, {130, 1}, {300, 0}, {12, 1}} {
 			scope := "R0-WIDE"
-			if !c.MineIdx(scope, int64(wi)) || c.Expired() {
+			if !(c.MineIdx(scope, int64(wi)) || (c.Replay && c.ReplayScope == scope+"/m" && c.ReplayIndex == int64(wi))) || c.Expired() {
 				continue
 			}
 			batch := wide(spec[0], spec[1] == 1)
